@@ -180,13 +180,19 @@ def run_numeric(case):
         r = np.stack([0.3 * np.sin(0.7 * k + 0.1) + 0.05, -0.2 * np.cos(1.1 * k) + 0.4 * k / 6, 0.1 + 0.07 * k],
                      axis=1)
         readings = pd.DataFrame(r, index=pd.Index(t, name='time'), columns=['theta_x', 'theta_y', 'theta_z'])
-        for smm in range(512):
+        # every mask with float standard deviations; a few masks again with integer-typed ones (an
+        # estimate buffer that inherits the dtype of a standard deviation truncates every update)
+        for smm, intform in [(s_, False) for s_ in range(512)] + [(s_, True) for s_ in (0, 511, 273, 48, 7, 84)]:
             smb = [[(smm >> (3 * i + j)) & 1 for j in range(3)] for i in range(3)]
             T = np.eye(3) + np.array([[vs['sm'](i, j) * smb[i][j] for j in range(3)] for i in range(3)])
             bias = np.array([vs['bias'][a] * ((bm >> a) & 1) for a in range(3)])
             sm_sd = np.array([[1e-2 * smb[i][j] for j in range(3)] for i in range(3)])
-            model = isn.EstimationModel(bias_sd=np.array([0.1 * ((bm >> a) & 1) for a in range(3)]),
-                                        scale_misal_sd=sm_sd)
+            if intform:
+                model = isn.EstimationModel(bias_sd=np.array([(bm >> a) & 1 for a in range(3)], dtype=int),
+                                            scale_misal_sd=np.array(smb, dtype=int))
+            else:
+                model = isn.EstimationModel(bias_sd=np.array([0.1 * ((bm >> a) & 1) for a in range(3)]),
+                                            scale_misal_sd=sm_sd)
             par = isn.Parameters(transform=T, bias=bias)
             theta = []
             for name in model.states:
